@@ -691,6 +691,8 @@ def hash_id(s):
 
 
 def replay(mod, path):
+    if hasattr(mod, "replay"):
+        return mod.replay(path)
     d = json.load(open(path))
     if "case" not in d:
         print(json.dumps(d, indent=1))
